@@ -62,12 +62,16 @@ func runNBRandom(w *rt.World, res *hx.Result, kind int) *hx.Violation {
 	shareHosts := hx.G(3) == 0 // clients 2k and 2k+1 sit on the same host (several connections from one address)
 	flood := hx.G(4) == 0      // client 0 sends a burst of up to 40 datagrams
 	floodN := 8 + hx.G(33)
+	junkOn := hx.G(4) == 0
+	junkN := 1 + hx.G(6)
 	churnOn := hx.G(3) != 0
 	churnRounds := 1 + hx.G(3)
 	churnTCP := kind == 2 && hx.G(2) == 0
-	stopMode := hx.F(13) // 0..1: after the clients; 2..7: at a chosen time while they run; 8..9: when client 0 has sent its k-th request
+	stopMode := hx.F(14) // 0..1: after the clients; 2..7: at a chosen time while they run; 8..9: when client 0 has sent its k-th request
 	// 10: when some SUT task is blocked on a channel; 11: when >= 3 packet handlers are alive; 12: when a SUT task waits for a lock
-	stopAt := [...]int64{0, 0, 0, 1e6, 10e6, 100e6, 1e9, 6e9, 0, 0, 0, 0, 0}[stopMode]
+	// 13: when client 0 has sent its k-th request and the SUT has then executed exactly stopAfterPts more statements
+	stopAt := [...]int64{0, 0, 0, 1e6, 10e6, 100e6, 1e9, 6e9, 0, 0, 0, 0, 0, 0}[stopMode]
+	stopAfterPts := 1 + hx.F(500)
 	if fb := hx.F(2); flood && fb == 0 {
 		stopMode = 10 // a burst is the situation in which internal queues fill up: place the Stop there
 	}
@@ -211,6 +215,25 @@ func runNBRandom(w *rt.World, res *hx.Result, kind int) *hx.Violation {
 			tasks = append(tasks, rt.GoHarness(fmt.Sprintf("udp-client%d", cl.idx), cl.host, func() { udpClient(cl) }))
 		}
 	}
+	if junkOn {
+		// A sender of datagrams whose header announces more questions than the datagram carries (cut after a
+		// complete question). What the server does with them is not judged here (decoder totality is C07); what is
+		// judged is that they leave nothing behind that leaks into the answers to the well-formed requests around them.
+		rt.GoHarness("junk-sender", "10.0.1.240", func() {
+			c, err := simnet.ListenUDP("udp4", &net.UDPAddr{})
+			if err != nil {
+				return
+			}
+			defer c.Close()
+			for i := 0; i < junkN; i++ {
+				b := buildRequest(uint16(0x7700+i), 0, 0, []string{"GHOSTNAME"}, "", nil, 0, false)
+				b[5] = 2 // QDCOUNT = 2, one question present
+				c.WriteToUDP(b, &net.UDPAddr{IP: serverIP, Port: 137})
+				rt.SleepUntil(rt.Now() + int64(1+i%3)*1e6)
+			}
+		})
+		rt.Probe(PJunk)
+	}
 	churnReliable := true
 	if churnOn {
 		tasks = append(tasks, rt.GoHarness("churner", "10.0.1.200", func() {
@@ -235,6 +258,11 @@ func runNBRandom(w *rt.World, res *hx.Result, kind int) *hx.Violation {
 			case stopMode == 12:
 				if rt.WaitState(&rt.StateCond{BlockedIn: "sync."}, startT+10e9) {
 					rt.Probe(PStopStateTriggered)
+				}
+			case stopMode == 13:
+				stopTrigger.Wait(startT + 10e9)
+				if rt.AfterPoints(stopAfterPts, rt.Now()+1e9) {
+					rt.Probe(PStopAtStatement)
 				}
 			case stopMode >= 8:
 				stopTrigger.Wait(startT + 10e9) // progress-triggered: in the middle of client 0's burst
@@ -647,9 +675,9 @@ func tcpClient(cl *nbClient, window int) {
 }
 
 // nbStopBound: "promptly" for the NBNS servers. On the pinned tree Stop() needs no simulated time at all
-// (closing the sockets wakes every blocked loop); the bound tolerates designs that poll at the granularity
-// of the 5 s UDP read timeout, and flags a Stop that has to wait out the 30 s TCP read timeout.
-const nbStopBound = int64(6e9)
+// (closing the sockets wakes every blocked loop). The bound leaves room for a bounded drain of in-flight
+// handlers (a second or two) and flags a Stop that has to wait out an I/O timeout (5 s UDP read, 30 s TCP).
+const nbStopBound = int64(3e9)
 
 const churnName = "CHURNGRP"
 
@@ -682,7 +710,7 @@ func churnOp(sys *nbSystem, kind, op int, m net.IP) {
 }
 
 // churner walks the churn cycle during the concurrent phase. Every step is repeated until the server
-// acknowledged it (the operations are idempotent); false = a step was never acknowledged.
+// acknowledged it (the operations are idempotent); false = a step was never acknowledged or had to be repeated.
 // churnRcodes collects the response code of every acknowledged churn step (harness-private, read after the run).
 var churnRcodes []int
 
@@ -714,10 +742,16 @@ func churner(tcp bool, rounds int) bool {
 		}
 		return true
 	}
+	retried := false
 	for r := 0; r < rounds; r++ {
 		for _, st := range churnCycle {
 			acked := false
 			for try := 0; try < 4 && !acked; try++ {
+				if try > 0 {
+					// the unanswered copy may still be sitting in a stalled handler and be applied later, out of
+					// order: from here on the group may be off the cycle
+					retried = true
+				}
 				id++
 				resp := udpExchange(churnReq(id, st.op, churnMembers[st.m]), time.Second)
 				acked = resp != nil
@@ -730,7 +764,7 @@ func churner(tcp bool, rounds int) bool {
 			}
 		}
 	}
-	return true
+	return !retried
 }
 
 func describeAll(set [][]byte) string {
